@@ -105,7 +105,61 @@ def judge(ctx, bindir, rep, ds, cases_path, owner, paths=None):
     return extra
 
 
-def check_modes(ctx, bindir, prop, modes, paths=None):
+ALPHABET = " \"-.0123456789AB\\ab"
+
+
+def enc(text):
+    return "<<" + ", ".join(str(ALPHABET.index(c) + 1) for c in text) + ">>"
+
+
+def rand_module(seed, k):
+    """QueryRand.tla with k random datasets: rows over the value pools of QueryCases (nulls, ties, case variants, numeric strings, self references,
+    empty sets, big floats, the zero time), written out as plain records"""
+    import random
+    rng = random.Random(seed)
+    nil = '[t |-> "nil"]'
+    S = lambda x: '[t |-> "s", v |-> %s]' % enc(x)
+    N = lambda x: '[t |-> "n", v |-> %d]' % (2 * x)
+    F = lambda x2: '[t |-> "f", v |-> %d]' % x2
+    B = lambda x: '[t |-> "b", v |-> %s]' % ("TRUE" if x else "FALSE")
+    D = lambda x: '[t |-> "d", v |-> %d]' % x
+    strs = ["", "a", "ab", "A", "AB", "b", "1", "10", "1.5", "a b", 'a"b', "a\\b", "-1", "bb", "B", "aA"]
+    pick = lambda pool, pnil: nil if rng.random() < pnil else rng.choice(pool)
+    out = []
+    for di in range(k):
+        nrows = rng.randint(4, 7)
+        ids = rng.sample(["a", "aa", "ab", "b", "A", "AB", "1", "10", "ba", "bb", "a b", "B", "0", "-1"], nrows)
+        keys = ["r%d" % (i + 1) for i in range(nrows)]
+        pids = rng.sample(["2", "20", "2.5", "a2", "A2"], 3)
+        pkeys = ["q1", "q2", "q3"]
+        rows = []
+        for kx in keys:
+            sval = pick([S(x) for x in strs], 0.2)
+            n = pick([N(x) for x in range(-2, 12)], 0.2)
+            m = pick([N(x) for x in range(-2, 12)], 0.2)
+            f = pick([F(x) for x in list(range(-4, 41)) + [5000000]], 0.2)
+            b = pick([B(True), B(False)], 0.3)
+            t = pick([D(0), D(1), D(2), D(3), D(-1000)], 0.25)
+            roles = "{" + ", ".join(enc(x) for x in rng.sample(strs[:10], rng.randint(0, 3))) + "}"
+            boss = '""' if rng.random() < 0.3 else '"%s"' % rng.choice(keys)
+            peers = "{" + ", ".join('"%s"' % x for x in rng.sample(keys, rng.randint(0, min(3, nrows)))) + "}"
+            anyv = [S(x) for x in strs[:9]] + [N(x) for x in range(-1, 4)] + [F(x) for x in (-1, 0, 3, 4, 5000000)]
+            tags = "[k |-> %s, j |-> %s, q |-> %s]" % (pick(anyv, 0.3), pick(anyv, 0.3), pick([B(True), B(False), D(0), D(1), D(3)], 0.4))
+            rows.append('%s |-> [s |-> %s, n |-> %s, m |-> %s, f |-> %s, b |-> %s, t |-> %s, roles |-> %s, boss |-> %s, peers |-> %s, tags |-> %s]'
+                        % (kx, sval, n, m, f, b, t, roles, boss, peers, tags))
+        of = ", ".join('%s |-> {%s}' % (kx, ", ".join('"%s"' % p for p in rng.sample(pkeys, rng.randint(0, 3)))) for kx in keys)
+        prow = ", ".join('%s |-> [s |-> %s]' % (pk, pick([S(x) for x in strs[:8]], 0.25)) for pk in pkeys)
+        out.append('[ name |-> "R%d", names |-> [%s], row |-> [%s],\n    pl |-> [of |-> [%s], row |-> [%s], names |-> [%s]] ]' % (
+            di + 1, ", ".join("%s |-> %s" % (kx, enc(i)) for kx, i in zip(keys, ids)), ",\n      ".join(rows), of, prow,
+            ", ".join("%s |-> %s" % (pk, enc(i)) for pk, i in zip(pkeys, pids))))
+    return ("----------------------------- MODULE QueryRand -----------------------------\n(* generated: seed %d, %d datasets *)\nEXTENDS Integers\n"
+            "RandDatasets == {\n  %s }\n=============================================================================\n" % (seed, k, ",\n  ".join(out)))
+
+
+def check_modes(ctx, bindir, prop, modes, paths=None, rand=0):
+    if rand:
+        ctx.extra_specs = {"QueryRand.tla": rand_module(ctx.seed, rand)}
+        ctx.cov["random_datasets"] = rand
     dev, ds = probe_devs(ctx, bindir, paths or BOLT_PATHS)
     ctx.cov["deviations_in_effect"] = sorted(dev)
     for mode in modes:
